@@ -58,6 +58,9 @@ static int probe_child(probe_a *a) {
         if (h[n - 1] == 'R') { sink = p[0]; if (a->size > 1) sink = p[a->size - 1]; _exit(0); }
         if (h[n - 1] == 'W') { p[0] = 1; if (a->size > 1) p[a->size - 1] = 1; _exit(0); }
         if (h[n - 1] == 'F') { sodium_free(p); _exit(0); }
+        if (h[n - 1] == 'P') { sink = p[a->size]; _exit(0); }                                /* guard page after the data: must fault after any history */
+        if (h[n - 1] == 'Q') { p[a->size] = 1; _exit(0); }
+        if (h[n - 1] == 'G') { sink = *(unsigned char *) ((((uintptr_t) (p - 16)) & ~(uintptr_t) 4095) - 1); _exit(0); }   /* guard page before the data */
     }
     _exit(52);
 }
@@ -72,4 +75,20 @@ static int op_probe(int argc, char **argv, FILE *o) {
     if (WIFSIGNALED(st)) fputs("signal", o); else fprintf(o, "exit=%d", WEXITSTATUS(st));
     return 0;
 }
-const hx_op ops_c17[] = { {"alloc.layout", op_layout}, {"alloc.array", op_array}, {"alloc.probe", op_probe}, {NULL, NULL} };
+/* alloc.protlog <size> <history of n/r/w>: the mprotect calls issued by the protection API, offsets relative to the mapping base */
+static int op_protlog(int argc, char **argv, FILE *o) {
+    uint64_t s; void *p; const char *h; extern void hxw_log_keep_base(void);
+    if (argc != 2 || hx_u64(argv[0], &s)) return -1;
+    hxw_log_reset(); hxw_log_on = 1; p = sodium_malloc((size_t) s); hxw_log_on = 0;
+    if (p == NULL) { fputs("NULL", o); return 0; }
+    hxw_log_keep_base(); hxw_log_on = 1;
+    for (h = argv[1]; *h; h++) {
+        int rc = *h == 'n' ? sodium_mprotect_noaccess(p) : *h == 'r' ? sodium_mprotect_readonly(p) : sodium_mprotect_readwrite(p);
+        if (rc != 0) { hxw_log_on = 0; fprintf(o, "rc=%d", rc); sodium_free(p); return 0; }
+    }
+    hxw_log_on = 0;
+    fprintf(o, "calls=%s", hxw_log);
+    sodium_free(p);
+    return 0;
+}
+const hx_op ops_c17[] = { {"alloc.layout", op_layout}, {"alloc.array", op_array}, {"alloc.probe", op_probe}, {"alloc.protlog", op_protlog}, {NULL, NULL} };
